@@ -93,7 +93,7 @@ struct Pass {
   EncNode helper; Source src; int64_t pos = 0; int expert_dur = OPUS_FRAMESIZE_ARG;   // helper encoder for decoder subjects
   std::vector<std::pair<int, int>> settings;   // every ctl call made on the subject, in order (replayed on a fresh object = "same settings")
   int arch_cap = -1;
-  std::vector<std::unique_ptr<EncNode>> byst_e; std::vector<std::unique_ptr<DecNode>> byst_d; Rng brng{7};
+  std::vector<std::unique_ptr<EncNode>> byst_e; std::vector<std::unique_ptr<DecNode>> byst_d; Rng brng{7}; Rng byst_rand{99};
   long steps = 0; bool frames_since_reset = false;
 
   Pass(Run &r, const Plan &p, Env e) : run(r), plan(p), env(e), brng(e.seed) {}
@@ -112,6 +112,7 @@ struct Pass {
   void bystanders() {
     // unrelated objects of other configurations living and working between the subject's calls (differ between
     // environments): anything the library keeps outside the object's own bytes is exposed to them
+    g_rand_stream = &byst_rand;   // bystanders draw their FUZZING decisions from their own stream, never from a twin's
     for (int k = 0; k < env.nbyst; k++) {
       if (byst_e.size() < 3 && brng.chance(0.5)) {
         auto e = std::make_unique<EncNode>(); Layout l; l.fs = kRates[brng.range(0, 4)]; l.ch = (int)brng.range(1, 2); l.app = kApps[brng.range(0, 2)];
